@@ -322,4 +322,21 @@ theorem Struct.keep {m : Mon} {R' : Nat → Cond → Prop} (h : m.Struct R) {t :
 
 end Mon
 
+theorem Mon.Struct.not_parked {m : Mon} {R : Nat → Cond → Prop} (h : m.Struct R) {t : Nat} {c : Cond} (hr : ¬ R t c) :
+    t ∉ (m.ws c).W ∧ t ∉ (m.ws c).S :=
+  ⟨fun hx => hr (h.role c t (Or.inl hx)), fun hx => hr (h.role c t (Or.inr hx))⟩
+
+/-- what `notifs [notify c]` leaves behind -/
+theorem Mon.notifs_one (m : Mon) (c : Cond) :
+    (m.notifs [⟨false, c⟩]).owner = m.owner ∧ (∀ c', c' ≠ c → (m.notifs [⟨false, c⟩]).ws c' = m.ws c') ∧
+      OneSpec (m.ws c) ((m.notifs [⟨false, c⟩]).ws c) := by
+  have := Mon.notify_spec m ⟨false, c⟩
+  simpa [Mon.notifs] using this
+
+theorem Mon.notifs_all (m : Mon) (c : Cond) :
+    (m.notifs [⟨true, c⟩]).owner = m.owner ∧ (∀ c', c' ≠ c → (m.notifs [⟨true, c⟩]).ws c' = m.ws c') ∧
+      (m.notifs [⟨true, c⟩]).ws c = (m.ws c).all := by
+  have := Mon.notify_spec m ⟨true, c⟩
+  simpa [Mon.notifs] using this
+
 end MuduoVerif.Monitor
